@@ -1137,7 +1137,7 @@ class Interp:
         if bound is None:
             return TOP
         if fr.record:
-            self.callfacts.append(CallFact(fr.fi, node, fi, dict(bound), {n: env[n] for n in ("order", "size", "up_to", "s", "seed") if n in env}, fr.ctx))
+            self.callfacts.append(CallFact(fr.fi, node, fi, dict(bound), dict(env), fr.ctx))
         defaults = fi.defaults()
         if self.is_declared(fi) and fi.cls is None:
             # module-level helper (canonicaliser / size helper): arguments are checked against the declared
